@@ -711,6 +711,44 @@ pub fn family(name: &str, k: usize) -> Vec<Vec<u8>> {
             }
             vec![d]
         }
+        "ipfix-varlen-zero-records" => {
+            // k empty variable-length values (one zero octet each), then one non-empty record: work
+            // that depends on the *values* (a scan for padding, a search for a terminator) shows here
+            let t = IpfixMsg { export_time: 0, seq: 0, domain: 0, sets: vec![IpfixSet::Template { records: vec![IpfixTmpl { id: 256, fields: vec![IpfixSpec { type_num: 82, len: 65535, enterprise: None }] }], padding: vec![] }] };
+            let mut d = ixhdr(16 + 4 + k + 2);
+            p16(&mut d, 256);
+            p16(&mut d, (4 + k + 2) as u16);
+            d.extend(vec![0u8; k]);
+            d.extend_from_slice(&[1, b'x']);
+            vec![t.wire(), d]
+        }
+        "ipfix-zero-records" => {
+            let t = IpfixMsg { export_time: 0, seq: 0, domain: 0, sets: vec![IpfixSet::Template { records: vec![IpfixTmpl { id: 256, fields: vec![IpfixSpec { type_num: 1, len: 4, enterprise: None }] }], padding: vec![] }] };
+            let mut d = ixhdr(16 + 4 + 4 * k + 4);
+            p16(&mut d, 256);
+            p16(&mut d, (4 + 4 * k + 4) as u16);
+            d.extend(vec![0u8; 4 * k]);
+            p32(&mut d, 7);
+            vec![t.wire(), d]
+        }
+        "v9-zero-records" => {
+            let t = V9Pkt { count: 1, sys_up_time: 0, unix_secs: 0, seq: 0, source_id: 0, flowsets: vec![V9FlowSet::Template { templates: vec![V9Tmpl { id: 256, fields: vec![(1, 4)] }], padding: vec![] }] };
+            let mut d = v9hdr(1);
+            p16(&mut d, 256);
+            p16(&mut d, (4 + 4 * k + 4) as u16);
+            d.extend(vec![0u8; 4 * k]);
+            p32(&mut d, 7);
+            vec![t.wire(), d]
+        }
+        "ipfix-ones-records" => {
+            let t = IpfixMsg { export_time: 0, seq: 0, domain: 0, sets: vec![IpfixSet::Template { records: vec![IpfixTmpl { id: 256, fields: vec![IpfixSpec { type_num: 1, len: 4, enterprise: None }] }], padding: vec![] }] };
+            let mut d = ixhdr(16 + 4 + 4 * k + 4);
+            p16(&mut d, 256);
+            p16(&mut d, (4 + 4 * k + 4) as u16);
+            d.extend(vec![0xffu8; 4 * k]);
+            p32(&mut d, 7);
+            vec![t.wire(), d]
+        }
         "mixed-version-chain" => {
             // k groups of (V5 header, V7 header, V9 header, IPFIX header)
             let mut d = vec![];
@@ -766,6 +804,10 @@ pub const FAMILIES: &[(&str, usize)] = &[
     ("chained-v9-template-packets", 1024),
     ("chained-ipfix-template-messages", 1024),
     ("chained-v9-options-template-packets", 1024),
+    ("ipfix-varlen-zero-records", 8192),
+    ("ipfix-zero-records", 8192),
+    ("v9-zero-records", 8192),
+    ("ipfix-ones-records", 8192),
 ];
 
 /// Fill all four caches of a parser with `p` unrelated templates of 64 fields each (ids from 20000
